@@ -229,6 +229,10 @@ fn test_bases() {
         "Conversion to 00:00 is not defined in base 16",
     );
     test("256 -> base 16", "100 (dimensionless)");
+    test("255/7 -> frac hex", "ff/7 (dimensionless)");
+    test("-10 -> frac hex", "-a (dimensionless)");
+    test("1/1000 -> hex", "1/3e8, approx. 0.004189374 (dimensionless)");
+    test("1/1000 -> base 7", "1/2626, approx. 0.0002254354 (dimensionless)");
 
     test(
         "123 -> base 37",
